@@ -85,7 +85,7 @@ var c10Entries = []string{"apply-doc", "apply-sub", "url", "apply-multiroot"}
 func c10Enumerate(tier string, emit func(*eng.Case)) {
 	// documents of the other checks, under the options they were built for: a repeated call on the
 	// document, one on an attached sub-element, and the document again
-	crossEmit(tier, "owned", 1, func(c *eng.Case) {
+	crossEmit("C10", tier, "owned", 1, func(c *eng.Case) {
 		c.P["opts"], c.P["hist"] = "case", "apply-doc,apply-sub,apply-doc"
 		emit(c)
 	})
